@@ -1,10 +1,55 @@
-(* Properties_C09.v — obligations of property C09.  Contains only theorem statements closed by
-   `exact <lemma>` and Print Assumptions. *)
-Require Import ObsRun.
+(* Properties_C09.v — obligations of property C09 (extended check: nothing seen only once ever
+   becomes visible). *)
+Require Import ObsRun Lemmas_Ext Lemmas_TabEcc.
 Local Open Scope Z_scope.
 
-(* non-vacuity: the observer of C09 is evaluated (and holds) along a run of the model that
-   touches every group kind *)
+(* For EVERY history in which the extended check was switched on while the parser was in its reset
+   state and never switched off (ext_scope), after every call: each of PI, PTY, TP, TA, MS, ECC,
+   country equals last_confirmed of its reception list since the last reset —
+     last_confirmed (x :: y :: r) = if x = y then x else last_confirmed (y :: r), unknown on shorter lists
+   (most recent first; the initial unknown value counts as the oldest entry, which only matters for
+   the country, whose unknown value 0 can itself be received) — i.e. a new value is taken exactly
+   when the two most recent receptions of that field both carried it; and the AF list is the set of
+   valid codes received at least twice since the last reset.  A value received once is therefore
+   never visible, a stable value appears with a latency of exactly one extra occurrence.  Receptions
+   of a field are those of C01 / C11 (errored groups do not count); the country reception is looked
+   up with the PI accepted at that moment. *)
+Theorem C09_observer : forall h s o, reach conv_u lut_g h s -> wf_op o ->
+  obs_C09 lut_g (o :: h) (snap_of s) (snap_of (fst (step_u s o))) (snd (step_u s o)) (ret_of o) = true.
+Proof. exact (C09_observer_holds conv_u lut_g lut_g_range). Qed.
+Print Assumptions C09_observer.
+
+(* the same, field by field, for any tables whose country values are valid enumerators *)
+Theorem C09_scalar_confirmed : forall lut, (forall n e, 0 <= lut n e < 221) ->
+  forall f h, wf_hist h -> ext_scope h = true ->
+  getf f (b_used (b_hist lut h)) = confirmed (unk f) (sel lut f) h.
+Proof.
+  intros lut Hl f h Hw He. unfold confirmed. fold (rsx lut f h).
+  destruct (sfield_eqb f SCountry) eqn:Ef.
+  - destruct f; try discriminate. exact (f_equal fst (ext_hist_country lut Hl h Hw He)).
+  - destruct (ext_hist_basic lut f ltac:(intros ->; discriminate) h Hw He) as [_ Hi]. exact (f_equal fst Hi).
+Qed.
+Print Assumptions C09_scalar_confirmed.
+
+(* the candidate (second stage) is always the most recent reception *)
+Theorem C09_candidate_is_last_reception : forall lut f, f <> SCountry -> forall h, wf_hist h -> ext_scope h = true ->
+  getf f (b_temp (b_hist lut h)) = hd (unk f) (rsx lut f h).
+Proof.
+  intros lut f Hf h Hw He. destruct (ext_hist_basic lut f Hf h Hw He) as [_ Hi]. exact (f_equal snd Hi).
+Qed.
+Print Assumptions C09_candidate_is_last_reception.
+
+(* AF: listed iff received at least twice; the candidates are the codes received at least once *)
+Theorem C09_af_twice : forall conv lut h s, reach conv lut h s -> ext_scope h = true ->
+  d_af (used s) = bitmap_of (fun v => 2 <=? count_z v (af_rx h)).
+Proof. intros conv lut h s Hr He. exact (proj2 (C10_af_set_holds conv lut h s Hr) He). Qed.
+Print Assumptions C09_af_twice.
+
+(* texts and clock time are not subject to the mode: the text step theorems (C06/C08) and the
+   clock-time theorem (C12) do not mention `ext`; on the library this is checked by twin runs *)
 Example C09_scenario : check_run_u (observer_u 9) scenario = true.
 Proof. vm_compute. reflexivity. Qed.
-Print Assumptions C09_scenario.
+Example C09_alternation :
+  last_confirmed (-1) [7; 5; 7; 5; -1] = -1 /\ last_confirmed (-1) [7; 7; 5; -1] = 7
+  /\ last_confirmed (-1) [5; 7; 7; -1] = 7 /\ last_confirmed (-1) [5; -1] = -1.
+Proof. vm_compute. repeat split. Qed.
